@@ -437,7 +437,7 @@ class Body:
                         return t[3][idx]
                 if t[0] == "phi":
                     return ("phi", tuple(self._project(x, pr, stack) for x in t[1]))
-                return ("field", t, idx, pr.get("n"))
+                return ("field", t, idx, pr.get("n"), pr.get("a"))
             if "dc" in pr:
                 return ("downcast", t, pr["dc"], pr.get("n"))
             if "ix" in pr:
@@ -705,3 +705,60 @@ def show(t, depth=0, maxdepth=8):
     if depth > maxdepth:
         return "…"
     return path_str(t)
+
+
+# ---------------------------------------------------------------- small matching helpers
+
+def is_call(t, *names, nargs=None):
+    if t[0] != "call":
+        return False
+    if names and not name_in(t[1]["name"], names) and not name_in(t[1]["decl"], names):
+        return False
+    return nargs is None or len(t[2]) == nargs
+
+
+def uncast(t, kinds=("IntToInt",)):
+    while t[0] == "cast" and t[1] in kinds:
+        t = t[2]
+    return t
+
+
+def unref(t):
+    while t[0] in ("ref", "deref"):
+        t = t[2] if t[0] == "ref" else t[1]
+    return t
+
+
+def is_adt_agg(t, adt, vname=None):
+    return t[0] == "agg" and t[1] == "adt" and t[2].get("adt") == adt and (vname is None or t[2].get("vname") == vname)
+
+
+def agg_field(t, name):
+    """operand of field `name` of an ADT aggregate term"""
+    fields = t[2].get("fields", ())
+    for i, f in enumerate(fields):
+        if f == name:
+            return t[3][i]
+    return None
+
+
+def closure_of(t):
+    """closure def path when t is a closure aggregate (possibly behind refs)"""
+    t = unref(t)
+    if t[0] == "agg" and t[1] == "closure":
+        return t[2]["closure"], t[3]
+    return None, None
+
+
+def _body_def_sites(self, l):
+    """[(bb, term)] for every whole-local definition of local l"""
+    out = []
+    for d in self.defs().get(l, []):
+        if d[0] == "assign":
+            out.append((d[1], self.rvalue_term(d[3], (l,))))
+        else:
+            out.append((d[1], self.call_term(d[2], (l,), bb=d[1])))
+    return out
+
+
+Body.def_sites = _body_def_sites
